@@ -240,4 +240,602 @@ theorem reroot_off_path (t : Table) (r : Int) (n : Node) (hn : n ∈ t) (hoff : 
       | some o => rw [hl] at h; simp at h; rw [h]; exact List.mem_of_getLast? hl
     rw [if_neg h2]
 
+/-! ### root paths in a well-formed forest: recursion equations, induction, suffixes -/
+
+theorem rootPath_absent {t : Table} {i : Int} (h : find? t i = none) : rootPath t i = [] := by
+  unfold rootPath pathToRoot; rw [h]
+
+theorem rootPath_of_root {t : Table} {i : Int} {n : Node} (h : find? t i = some n) (hp : n.parent < 0) :
+    rootPath t i = [i] := by
+  unfold rootPath pathToRoot; rw [h]; simp [hp]
+
+/-- In a well-formed forest the fuel never runs out: the root path of a non-root is the node followed
+by the root path of its parent. -/
+theorem rootPath_of_nonroot {t : Table} (hw : WF t) {i : Int} {n : Node} (h : find? t i = some n)
+    (hp : ¬ n.parent < 0) : rootPath t i = i :: rootPath t n.parent := by
+  have hn := find?_some h
+  have hb := wfB_complete hw
+  unfold wfB at hb
+  simp only [Bool.and_eq_true, List.all_eq_true] at hb
+  have h4 := hb.2 n hn.1
+  rw [hn.2] at h4
+  have hr := reachesRoot_parent h hp h4
+  have e2 : rootPath t n.parent = pathToRoot t t.length n.parent := by
+    unfold rootPath; exact pathToRoot_fuel_succ t _ _ hr
+  rw [e2]
+  unfold rootPath
+  rw [pathToRoot, h]; simp [hp]
+
+/-- Induction from the roots outward. -/
+theorem WF_induct {t : Table} (hw : WF t) (P : Int → Prop)
+    (h : ∀ n ∈ t, (n.parent < 0 ∨ P n.parent) → P n.id) : ∀ i ∈ ids t, P i := by
+  obtain ⟨_, _, rk, hrk⟩ := hw
+  have key : ∀ k i, rk i < k → i ∈ ids t → P i := by
+    intro k
+    induction k with
+    | zero => intro i hi; omega
+    | succ k ih =>
+      intro i hi him
+      obtain ⟨n, hn, rfl⟩ := mem_ids.mp him
+      apply h n hn
+      rcases hrk n hn with hp | ⟨hp1, hp2⟩
+      · exact Or.inl hp
+      · exact Or.inr (ih _ (by omega) hp1)
+  intro i hi
+  exact key (rk i + 1) i (by omega) hi
+
+/-- The root path of a node on a root path is a suffix of it. -/
+theorem rootPath_suffix {t : Table} (hw : WF t) (i : Int) (hi : i ∈ ids t) :
+    ∀ a ∈ rootPath t i, rootPath t a <:+ rootPath t i := by
+  refine WF_induct hw (fun i => ∀ a ∈ rootPath t i, rootPath t a <:+ rootPath t i) ?_ i hi
+  intro n hn hcase a ha
+  have hf := find?_of_mem hw.1 hn
+  by_cases hp : n.parent < 0
+  · rw [rootPath_of_root hf hp] at ha
+    simp at ha; rw [ha]; exact List.suffix_refl _
+  · rw [rootPath_of_nonroot hw hf hp] at ha ⊢
+    rcases List.mem_cons.mp ha with h | h
+    · rw [h, rootPath_of_nonroot hw hf hp]; exact List.suffix_refl _
+    · rcases hcase with hc | hc
+      · exact absurd hc hp
+      · exact List.IsSuffix.trans (hc a h) (List.suffix_cons _ _)
+
+/-- Every node on a root path belongs to the same tree (has the same root). -/
+theorem rootOf_of_mem_rootPath {t : Table} (hw : WF t) {i a : Int} (ha : a ∈ rootPath t i) :
+    rootOf t a = rootOf t i := by
+  have hi : i ∈ ids t := by
+    cases hf : find? t i with
+    | none => rw [rootPath_absent hf] at ha; simp at ha
+    | some n => exact mem_ids.mpr ⟨n, find?_some hf⟩
+  obtain ⟨pre, hpre⟩ := rootPath_suffix hw i hi a ha
+  have haid : a ∈ ids t := pathToRoot_subset t _ i a ha
+  obtain ⟨ro, _, hl, _, _⟩ := rootPath_ends hw a haid
+  unfold rootOf
+  rw [← hpre, List.getLast?_append, hl]; rfl
+
+/-- Nodes of other trees are never on the reversed path. -/
+theorem not_mem_rootPath_of_rootOf_ne {t : Table} (hw : WF t) {i a : Int} (h : rootOf t a ≠ rootOf t i) :
+    a ∉ rootPath t i := fun ha => h (rootOf_of_mem_rootPath hw ha)
+
+/-! ### the reversed path -/
+
+theorem Linked_pred {t : Table} {path : List Int} (hl : Linked t path) {i a : Int} (h : predOnPath path i = some a) :
+    ∃ q, find? t a = some q ∧ q.parent = i ∧ 0 ≤ i := by
+  induction path with
+  | nil => simp [predOnPath] at h
+  | cons x rest ih =>
+    cases rest with
+    | nil => simp [predOnPath] at h
+    | cons y rest' =>
+      unfold Linked at hl
+      obtain ⟨⟨n, hfn, hpn, hy0⟩, hl'⟩ := hl
+      unfold predOnPath at h
+      by_cases hy : y = i
+      · rw [if_pos hy] at h
+        simp only [Option.some.injEq] at h
+        subst h; subst hy
+        exact ⟨n, hfn, hpn, hy0⟩
+      · rw [if_neg hy] at h
+        exact ih hl' h
+
+theorem Linked_succ {t : Table} {path : List Int} (hl : Linked t path) (hnd : path.Nodup) {i : Int} (hi : i ∈ path) :
+    path.getLast? = some i ∨ ∃ n, find? t i = some n ∧ 0 ≤ n.parent ∧ predOnPath path n.parent = some i := by
+  induction path with
+  | nil => simp at hi
+  | cons x rest ih =>
+    cases rest with
+    | nil => simp at hi; left; simp [hi]
+    | cons y rest' =>
+      unfold Linked at hl
+      obtain ⟨⟨n, hfn, hpn, hy0⟩, hl'⟩ := hl
+      rw [List.nodup_cons] at hnd
+      rcases List.mem_cons.mp hi with h | h
+      · right
+        subst h
+        refine ⟨n, hfn, by omega, ?_⟩
+        unfold predOnPath
+        rw [if_pos hpn.symm]
+      · rcases ih hl' hnd.2 h with h1 | ⟨n', hf', h0', hp'⟩
+        · left; rw [List.getLast?_cons_cons]; exact h1
+        · right
+          refine ⟨n', hf', h0', ?_⟩
+          unfold predOnPath
+          have hy : y ≠ n'.parent := by
+            intro he
+            have := predOnPath_mem_tail hp'
+            rw [← he] at this
+            simp only [List.tail_cons] at this
+            exact (List.nodup_cons.mp hnd.2).1 this
+          rw [if_neg hy]; exact hp'
+
+/-- The facts about `rootPath t r` that the reroot proofs use. -/
+structure RPath (t : Table) (r : Int) (path : List Int) : Prop where
+  nodup : path.Nodup
+  sub : ∀ a ∈ path, a ∈ ids t
+  head : path.head? = some r
+  linked : Linked t path
+  last : ∃ ro n, path.getLast? = some ro ∧ find? t ro = some n ∧ n.parent < 0
+
+theorem rootPath_RPath {t : Table} (hw : WF t) {r : Int} (hr : r ∈ ids t) : RPath t r (rootPath t r) :=
+  ⟨pathToRoot_nodup hw _ r, pathToRoot_subset t _ r, pathToRoot_head t t.length r hr,
+   pathToRoot_linked t _ r, rootPath_ends hw r hr⟩
+
+namespace RPath
+variable {t : Table} {r : Int} {path : List Int}
+
+theorem head_mem (h : RPath t r path) : r ∈ path := by
+  have := h.head
+  cases path with
+  | nil => simp at this
+  | cons a l => simp at this; simp [this]
+
+theorem r_not_tail (h : RPath t r path) : r ∉ path.tail := by
+  have hh := h.head
+  have hn := h.nodup
+  cases path with
+  | nil => simp
+  | cons a l =>
+    simp at hh; subst hh
+    simp only [List.tail_cons]
+    exact (List.nodup_cons.mp hn).1
+
+theorem mem_iff (h : RPath t r path) {i : Int} : i ∈ path ↔ i = r ∨ i ∈ path.tail := by
+  have hh := h.head
+  cases path with
+  | nil => simp at hh
+  | cons a l => simp at hh; subst hh; simp
+
+/-- A non-root node on the path is the predecessor (new parent) of its own parent. -/
+theorem pred_parent (h : RPath t r path) (hw : WF t) {n : Node} (hn : n ∈ t) (hon : n.id ∈ path)
+    (hp : ¬ n.parent < 0) : predOnPath path n.parent = some n.id := by
+  have hf := find?_of_mem hw.1 hn
+  rcases Linked_succ h.linked h.nodup hon with h1 | ⟨n', hf', _, hp'⟩
+  · obtain ⟨ro, m, hl, hfm, hm⟩ := h.last
+    rw [hl] at h1
+    simp only [Option.some.injEq] at h1
+    rw [h1, hf] at hfm
+    simp only [Option.some.injEq] at hfm
+    exact absurd (hfm ▸ hm) hp
+  · rw [hf] at hf'
+    simp only [Option.some.injEq] at hf'
+    rw [← hf'] at hp'; exact hp'
+
+/-- The only root on the path is its last element. -/
+theorem last_of_root (h : RPath t r path) (hw : WF t) {n : Node} (hn : n ∈ t) (hon : n.id ∈ path)
+    (hp : n.parent < 0) : path.getLast? = some n.id := by
+  have hf := find?_of_mem hw.1 hn
+  rcases Linked_succ h.linked h.nodup hon with h1 | ⟨n', hf', h0, _⟩
+  · exact h1
+  · rw [hf] at hf'
+    simp only [Option.some.injEq] at hf'
+    rw [← hf'] at h0; omega
+
+/-- Row-level description of the reversal in a well-formed forest. -/
+theorem rrow_cases (h : RPath t r path) (hw : WF t) {n : Node} (_hn : n ∈ t) :
+    (n.id = r ∧ (rrow r path n).parent = -1) ∨
+    (n.id ≠ r ∧ n.id ∈ path.tail ∧ ∃ q ∈ t, (rrow r path n).parent = q.id ∧ q.parent = n.id ∧ q.id ∈ path ∧ 0 ≤ q.id) ∨
+    (n.id ∉ path ∧ rrow r path n = n) := by
+  by_cases hr : n.id = r
+  · exact Or.inl ⟨hr, rrow_parent_self hr⟩
+  · right
+    cases hp : predOnPath path n.id with
+    | none =>
+      right
+      have hnot : n.id ∉ path := by
+        rw [h.mem_iff]; rintro (h1 | h1)
+        · exact hr h1
+        · exact predOnPath_none hp h1
+      exact ⟨hnot, rrow_off_path h.head_mem hnot⟩
+    | some a =>
+      left
+      obtain ⟨q, hfq, hqp, _⟩ := Linked_pred h.linked hp
+      have hq := find?_some hfq
+      have ha := (predOnPath_some hp).1
+      refine ⟨hr, predOnPath_mem_tail hp, q, hq.1, ?_, hqp, hq.2 ▸ ha, hw.2.1 q hq.1⟩
+      unfold rrow
+      rw [if_neg hr, hp, hq.2]
+
+end RPath
+
+/-! ### the undirected edge set -/
+
+theorem uedge_comm (a b : Int) : uedge a b = uedge b a := by
+  unfold uedge
+  by_cases h1 : a ≤ b <;> by_cases h2 : b ≤ a <;> simp [h1, h2]
+  · have : a = b := by omega
+    simp [this]
+  · omega
+
+theorem uedge_eq_iff {a b c d : Int} : uedge a b = uedge c d ↔ (a = c ∧ b = d) ∨ (a = d ∧ b = c) := by
+  unfold uedge
+  by_cases h1 : a ≤ b <;> by_cases h2 : c ≤ d <;> simp [h1, h2] <;> omega
+
+/-- In a well-formed forest no undirected edge occurs twice. -/
+theorem Nodup_uedges {t : Table} (hw : WF t) : (uedges t).Nodup := by
+  obtain ⟨hnd, _, rk, hrk⟩ := hw
+  have h1 : t.Pairwise (fun a b => a.id ≠ b.id) := by
+    unfold ids at hnd
+    exact List.pairwise_map.mp hnd
+  have h2 : (t.filter (fun n => !isRootNode n)).Pairwise (fun a b => a.id ≠ b.id) := h1.filter _
+  unfold uedges edges
+  rw [List.map_map]
+  apply List.pairwise_map.mpr
+  refine List.Pairwise.imp_of_mem ?_ h2
+  intro a b ha hb hab heq
+  have ha' := List.mem_filter.mp ha
+  have hb' := List.mem_filter.mp hb
+  have hpa : ¬ a.parent < 0 := by simpa [isRootNode] using ha'.2
+  have hpb : ¬ b.parent < 0 := by simpa [isRootNode] using hb'.2
+  simp only [Function.comp] at heq
+  rcases uedge_eq_iff.mp heq with ⟨e1, _⟩ | ⟨e1, e2⟩
+  · exact hab e1
+  · rcases hrk a ha'.1 with h | ⟨_, h⟩
+    · exact hpa h
+    · rcases hrk b hb'.1 with h' | ⟨_, h'⟩
+      · exact hpb h'
+      · rw [e1, e2] at h; omega
+
+theorem Nodup_edges {t : Table} (hnd : (ids t).Nodup) : (edges t).Nodup := by
+  have h1 : t.Pairwise (fun a b => a.id ≠ b.id) := by
+    unfold ids at hnd
+    exact List.pairwise_map.mp hnd
+  have h2 : (t.filter (fun n => !isRootNode n)).Pairwise (fun a b => a.id ≠ b.id) := h1.filter _
+  unfold edges
+  apply List.pairwise_map.mpr
+  refine h2.imp ?_
+  intro a b hab heq
+  simp only [Prod.mk.injEq] at heq
+  exact hab heq.1
+
+/-- Path reversal keeps the undirected edge set (membership form). -/
+theorem mem_uedges_rerootParents {t : Table} (hw : WF t) {r : Int} {path : List Int} (h : RPath t r path)
+    (e : Int × Int) : e ∈ uedges (rerootParents t r path) ↔ e ∈ uedges t := by
+  rw [mem_uedges, mem_uedges, rerootParents_eq_map]
+  constructor
+  · rintro ⟨m, hm, hmp, rfl⟩
+    obtain ⟨n, hn, rfl⟩ := List.mem_map.mp hm
+    rcases h.rrow_cases hw hn with ⟨_, h1⟩ | ⟨_, _, q, hq, h1, h2, _, h3⟩ | ⟨_, h1⟩
+    · rw [h1] at hmp; exact absurd (by decide) hmp
+    · refine ⟨q, hq, by rw [h2]; have := hw.2.1 n hn; omega, ?_⟩
+      rw [h1, rrow_id, h2, uedge_comm]
+    · rw [h1] at hmp ⊢; exact ⟨n, hn, hmp, rfl⟩
+  · rintro ⟨n, hn, hnp, rfl⟩
+    by_cases hon : n.id ∈ path
+    · -- the edge n → parent(n) is reversed: it is now the edge parent(n) → n
+      have hpred := h.pred_parent hw hn hon hnp
+      have hpin : n.parent ∈ ids t := by
+        rcases WF_parents hw n hn with hh | hh
+        · exact absurd hh hnp
+        · exact hh
+      obtain ⟨q, hq, hqid⟩ := mem_ids.mp hpin
+      have hqr : q.id ≠ r := by
+        intro he
+        have := predOnPath_mem_tail hpred
+        rw [← hqid, he] at this
+        exact h.r_not_tail this
+      have hqpar : (rrow r path q).parent = n.id := by
+        unfold rrow; rw [if_neg hqr, hqid, hpred]
+      refine ⟨rrow r path q, List.mem_map.mpr ⟨q, hq, rfl⟩, ?_, ?_⟩
+      · rw [hqpar]; have := hw.2.1 n hn; omega
+      · rw [hqpar, rrow_id, hqid, uedge_comm]
+    · exact ⟨rrow r path n, List.mem_map.mpr ⟨n, hn, rfl⟩, by rw [rrow_off_path h.head_mem hon]; exact hnp,
+        by rw [rrow_off_path h.head_mem hon]⟩
+
+/-- **Rerooting permutes the undirected edges** (so: same edge set, same number of edges). -/
+theorem uedges_reroot_perm {t : Table} (hw : WF t) (r : Int) : (uedges (reroot t r)).Perm (uedges t) := by
+  rcases reroot_links_cases t r with h | ⟨nr, h1, _, h3⟩
+  · rw [h]
+  · have hr : r ∈ ids t := mem_ids.mpr ⟨nr, find?_some h1⟩
+    rw [uedges_congr h3]
+    apply (List.perm_ext_iff_of_nodup (Nodup_uedges (WF_rerootParents hw r hr)) (Nodup_uedges hw)).mpr
+    intro e
+    exact mem_uedges_rerootParents hw (rootPath_RPath hw hr) e
+
+/-! ### cut -/
+
+theorem mem_distalSet {t : Table} {c i : Int} : i ∈ distalSet t c ↔ i ∈ ids t ∧ c ∈ rootPath t i := by
+  unfold distalSet isAncestorOrSelf
+  simp [List.mem_filter]
+
+theorem mem_ids_cut_distal {t : Table} {c : Int} {d p : Table} (h : cut t c = some (d, p)) (i : Int) :
+    i ∈ ids d ↔ i ∈ ids t ∧ c ∈ rootPath t i := by
+  obtain ⟨rfl, _, _⟩ := cut_some h
+  rw [ids_subset]
+  simp only [List.mem_filter, List.contains_eq_mem, decide_eq_true_eq, mem_distalSet]
+  constructor
+  · rintro ⟨_, h2⟩; exact h2
+  · rintro h2; exact ⟨h2.1, h2⟩
+
+theorem mem_ids_cut_proximal {t : Table} {c : Int} {d p : Table} (h : cut t c = some (d, p)) (i : Int) :
+    i ∈ ids p ↔ i ∈ ids t ∧ (c ∉ rootPath t i ∨ i = c) := by
+  obtain ⟨_, rfl, _⟩ := cut_some h
+  rw [ids_subset]
+  simp only [List.mem_filter, List.contains_eq_mem, Bool.or_eq_true, Bool.not_eq_true', decide_eq_false_iff_not,
+    beq_iff_eq, mem_distalSet]
+  constructor
+  · rintro ⟨h1, h2 | h2⟩
+    · exact ⟨h1, Or.inl fun hc => h2 ⟨h1, hc⟩⟩
+    · exact ⟨h1, Or.inr h2⟩
+  · rintro ⟨h1, h2 | h2⟩
+    · exact ⟨h1, Or.inl fun hc => h2 hc.2⟩
+    · exact ⟨h1, Or.inr h2⟩
+
+/-- Every surviving row of a subset, seen from the original table. -/
+theorem subset_row_of_mem {t : Table} (hnd : (ids t).Nodup) (keep : Int → Bool) {n : Node} (hn : n ∈ t)
+    (hk : keep n.id = true) :
+    ∃ m ∈ subset t keep, m.id = n.id ∧ m.parent = (if n.parent ∈ (ids t).filter keep then n.parent else -1) := by
+  have hid : n.id ∈ ids (subset t keep) := by
+    rw [ids_subset]; exact List.mem_filter.mpr ⟨mem_ids_of_mem hn, hk⟩
+  obtain ⟨m, hm, hmid⟩ := mem_ids.mp hid
+  obtain ⟨n', hn', h1, _, _, _, _, h2⟩ := subset_parent hnd keep hm
+  have hfn := find?_of_mem hnd hn
+  have hfn' := find?_of_mem hnd hn'
+  rw [h1, hmid, hfn] at hfn'
+  simp only [Option.some.injEq] at hfn'
+  subst hfn'
+  exact ⟨m, hm, hmid, h2⟩
+
+/-- Subsetting never invents an edge. -/
+theorem edges_subset_sub {t : Table} (hnd : (ids t).Nodup) (keep : Int → Bool) {e : Int × Int}
+    (he : e ∈ edges (subset t keep)) :
+    ∃ n ∈ t, ¬ n.parent < 0 ∧ e = (n.id, n.parent) ∧ keep n.id = true ∧ n.parent ∈ (ids t).filter keep := by
+  obtain ⟨m, hm, hmp, rfl⟩ := mem_edges.mp he
+  obtain ⟨n, hn, h1, hk, _, _, _, h2⟩ := subset_parent hnd keep hm
+  by_cases hc : n.parent ∈ (ids t).filter keep
+  · rw [if_pos hc] at h2
+    exact ⟨n, hn, h2 ▸ hmp, by rw [h1, h2], hk, hc⟩
+  · rw [if_neg hc] at h2
+    rw [h2] at hmp; exact absurd (by decide) hmp
+
+theorem edges_subset_of {t : Table} (hnd : (ids t).Nodup) (keep : Int → Bool) {n : Node} (hn : n ∈ t)
+    (hp : ¬ n.parent < 0) (hk : keep n.id = true) (hkp : n.parent ∈ (ids t).filter keep) :
+    (n.id, n.parent) ∈ edges (subset t keep) := by
+  obtain ⟨m, hm, h1, h2⟩ := subset_row_of_mem hnd keep hn hk
+  rw [if_pos hkp] at h2
+  exact mem_edges.mpr ⟨m, hm, h2 ▸ hp, by rw [h1, h2]⟩
+
+/-- The cut node's parent is not distal to it (no cycle). -/
+theorem parent_not_distal {t : Table} (hw : WF t) {n : Node} (hn : n ∈ t) (hp : ¬ n.parent < 0) :
+    n.id ∉ rootPath t n.parent := by
+  obtain ⟨_, _, rk, hrk⟩ := hw
+  intro hmem
+  have := (pathToRoot_ranks rk hrk (t.length + 1) n.parent).2 n.id hmem
+  rcases hrk n hn with h | ⟨_, h⟩
+  · exact hp h
+  · omega
+
+/-- For a non-root row other than the cut node: it is distal iff its parent is. -/
+theorem distal_iff_parent {t : Table} (hw : WF t) {c : Int} {n : Node} (hn : n ∈ t) (hp : ¬ n.parent < 0)
+    (hc : n.id ≠ c) : c ∈ rootPath t n.id ↔ c ∈ rootPath t n.parent := by
+  rw [rootPath_of_nonroot hw (find?_of_mem hw.1 hn) hp, List.mem_cons]
+  constructor
+  · rintro (h | h)
+    · exact absurd h.symm hc
+    · exact h
+  · exact Or.inr
+
+/-- **Edge partition of a cut** (membership form). -/
+theorem mem_edges_cut {t : Table} (hw : WF t) {c : Int} {d p : Table} (h : cut t c = some (d, p)) (e : Int × Int) :
+    e ∈ edges d ++ edges p ↔ e ∈ edges t := by
+  obtain ⟨rfl, rfl, nc, hfc, hncp⟩ := cut_some h
+  have hnc := find?_some hfc
+  rw [List.mem_append]
+  constructor
+  · rintro (he | he)
+    · obtain ⟨n, hn, hp, rfl, _, _⟩ := edges_subset_sub hw.1 _ he
+      exact mem_edges.mpr ⟨n, hn, hp, rfl⟩
+    · obtain ⟨n, hn, hp, rfl, _, _⟩ := edges_subset_sub hw.1 _ he
+      exact mem_edges.mpr ⟨n, hn, hp, rfl⟩
+  · intro he
+    obtain ⟨n, hn, hp, rfl⟩ := mem_edges.mp he
+    have hpin : n.parent ∈ ids t := by
+      rcases WF_parents hw n hn with hh | hh
+      · exact absurd hh hp
+      · exact hh
+    have hnid := mem_ids_of_mem hn
+    by_cases hc : n.id = c
+    · -- the edge from the cut node to its parent stays in the proximal piece
+      right
+      have hnd : ¬ c ∈ rootPath t n.parent := hc ▸ parent_not_distal hw hn hp
+      apply edges_subset_of hw.1 _ hn hp
+      · simp [hc]
+      · refine List.mem_filter.mpr ⟨hpin, ?_⟩
+        simp only [Bool.or_eq_true, Bool.not_eq_true', List.contains_eq_mem, decide_eq_false_iff_not, mem_distalSet]
+        exact Or.inl fun hh => hnd hh.2
+    · have hiff := distal_iff_parent hw hn hp hc
+      by_cases hd : c ∈ rootPath t n.id
+      · left
+        apply edges_subset_of hw.1 _ hn hp
+        · simp only [List.contains_eq_mem, decide_eq_true_eq, mem_distalSet]; exact ⟨hnid, hd⟩
+        · refine List.mem_filter.mpr ⟨hpin, ?_⟩
+          simp only [List.contains_eq_mem, decide_eq_true_eq, mem_distalSet]; exact ⟨hpin, hiff.mp hd⟩
+      · right
+        apply edges_subset_of hw.1 _ hn hp
+        · simp only [Bool.or_eq_true, Bool.not_eq_true', List.contains_eq_mem, decide_eq_false_iff_not, mem_distalSet]
+          exact Or.inl fun hh => hd hh.2
+        · refine List.mem_filter.mpr ⟨hpin, ?_⟩
+          simp only [Bool.or_eq_true, Bool.not_eq_true', List.contains_eq_mem, decide_eq_false_iff_not, mem_distalSet]
+          exact Or.inl fun hh => hd (hiff.mpr hh.2)
+
+/-- The two pieces of a cut have no edge in common. -/
+theorem edges_cut_disjoint {t : Table} (hw : WF t) {c : Int} {d p : Table} (h : cut t c = some (d, p))
+    (e : Int × Int) (hd : e ∈ edges d) (hp : e ∈ edges p) : False := by
+  obtain ⟨rfl, rfl, nc, hfc, hncp⟩ := cut_some h
+  obtain ⟨n, hn, hnp, rfl, hk, hkp⟩ := edges_subset_sub hw.1 _ hd
+  obtain ⟨n', hn', _, he, hk', _⟩ := edges_subset_sub hw.1 _ hp
+  simp only [Prod.mk.injEq] at he
+  rw [← he.1] at hk'
+  simp only [Bool.or_eq_true, Bool.not_eq_true', beq_iff_eq] at hk'
+  rcases hk' with hk' | hk'
+  · rw [hk] at hk'; exact absurd hk' (by decide)
+  · have hkp' := (List.mem_filter.mp hkp).2
+    simp only [List.contains_eq_mem, decide_eq_true_eq, mem_distalSet] at hkp'
+    exact parent_not_distal hw hn hnp (hk' ▸ hkp'.2)
+
+/-- **Every original edge lies in exactly one piece of a cut.** -/
+theorem edges_cut_perm {t : Table} (hw : WF t) {c : Int} {d p : Table} (h : cut t c = some (d, p)) :
+    (edges d ++ edges p).Perm (edges t) := by
+  have hwd : WF d := by obtain ⟨rfl, _, _⟩ := cut_some h; exact WF_subset hw _
+  have hwp : WF p := by obtain ⟨_, rfl, _⟩ := cut_some h; exact WF_subset hw _
+  apply (List.perm_ext_iff_of_nodup ?_ (Nodup_edges hw.1)).mpr (mem_edges_cut hw h)
+  rw [List.nodup_append]
+  exact ⟨Nodup_edges hwd.1, Nodup_edges hwp.1, fun a ha b hb hab => edges_cut_disjoint hw h a ha (hab ▸ hb)⟩
+
+/-! ### child counts and labels after the incremental relabel
+
+The child count of a node is recovered from its degree in the undirected edge list, which rerooting
+only permutes; so every node whose root status is unchanged keeps its child count. -/
+
+def incident (i : Int) (e : Int × Int) : Bool := e.1 == i || e.2 == i
+
+theorem incident_uedge (i a b : Int) : incident i (uedge a b) = (a == i || b == i) := by
+  unfold uedge incident
+  split
+  · rfl
+  · exact Bool.or_comm _ _
+
+/-- Degree = number of children + 1 for a non-root. -/
+theorem degree_eq {t : Table} (hloop : ∀ n ∈ t, n.parent ≠ n.id) {i : Int} (hi : 0 ≤ i) :
+    (uedges t).countP (incident i) =
+      childCount t i + t.countP (fun n => n.id == i && !decide (n.parent < 0)) := by
+  induction t with
+  | nil => rfl
+  | cons n t ih =>
+    have ih' := ih (fun m hm => hloop m (List.mem_cons_of_mem _ hm))
+    have hl := hloop n List.mem_cons_self
+    unfold uedges edges childCount isRootNode at *
+    simp only [List.filter_cons, List.countP_cons]
+    by_cases hp : n.parent < 0
+    · have h1 : (n.parent == i) = false := by simp; omega
+      simp only [hp, decide_true, Bool.not_true, Bool.false_eq_true, if_false, h1, Bool.and_false]
+      omega
+    · simp only [hp, decide_false, Bool.not_false, if_true, List.map_cons, List.countP_cons, incident_uedge,
+        Bool.and_true]
+      by_cases hpi : n.parent = i
+      · have h2 : (n.id == i) = false := by simp; omega
+        simp only [hpi, beq_self_eq_true, h2, Bool.or_true, if_true, Bool.false_eq_true,
+          if_false, List.length_cons]
+        omega
+      · have h2 : (n.parent == i) = false := by simpa using hpi
+        simp only [h2, Bool.or_false, Bool.false_eq_true, if_false]
+        omega
+
+theorem WF_no_loop {t : Table} (hw : WF t) : ∀ n ∈ t, n.parent ≠ n.id := by
+  obtain ⟨_, hpos, rk, hrk⟩ := hw
+  intro n hn he
+  rcases hrk n hn with h | ⟨_, h⟩
+  · have := hpos n hn; omega
+  · rw [he] at h; omega
+
+namespace RPath
+variable {t : Table} {r : Int} {path : List Int}
+
+/-- Apart from the new root and the old root, root status is unchanged by the reversal. -/
+theorem rrow_root_iff (h : RPath t r path) (hw : WF t) {n : Node} (hn : n ∈ t) (hr : n.id ≠ r)
+    (hlast : path.getLast? ≠ some n.id) : (rrow r path n).parent < 0 ↔ n.parent < 0 := by
+  rcases h.rrow_cases hw hn with ⟨h1, _⟩ | ⟨_, htail, q, _, h1, _, _, h2⟩ | ⟨_, h1⟩
+  · exact absurd h1 hr
+  · have hon : n.id ∈ path := List.mem_of_mem_tail htail
+    constructor
+    · intro hh; rw [h1] at hh; omega
+    · intro hh; exact absurd (h.last_of_root hw hn hon hh) hlast
+  · rw [h1]
+
+/-- Apart from the new root and the old root every node keeps its number of children. -/
+theorem childCount_rerootParents (h : RPath t r path) (hw : WF t) {i : Int} (hi : i ∈ ids t) (hr : i ≠ r)
+    (hlast : path.getLast? ≠ some i) : childCount (rerootParents t r path) i = childCount t i := by
+  have hw1 : WF (rerootParents t r path) := WF_rerootParents_gen hw r path h.nodup h.sub h.head
+  obtain ⟨ni, hni, hnid⟩ := mem_ids.mp hi
+  have hi0 : 0 ≤ i := hnid ▸ hw.2.1 ni hni
+  have hperm : (uedges (rerootParents t r path)).Perm (uedges t) :=
+    (List.perm_ext_iff_of_nodup (Nodup_uedges hw1) (Nodup_uedges hw)).mpr (mem_uedges_rerootParents hw h)
+  have hc := hperm.countP_eq (incident i)
+  rw [degree_eq (WF_no_loop hw1) hi0, degree_eq (WF_no_loop hw) hi0] at hc
+  have hsame : (rerootParents t r path).countP (fun n => n.id == i && !decide (n.parent < 0)) =
+      t.countP (fun n => n.id == i && !decide (n.parent < 0)) := by
+    rw [rerootParents_eq_map, List.countP_map]
+    apply List.countP_congr
+    intro n hn
+    simp only [Function.comp, rrow_id, Bool.and_eq_true, beq_iff_eq, Bool.not_eq_true', decide_eq_false_iff_not]
+    constructor
+    · rintro ⟨h1, h2⟩
+      exact ⟨h1, fun hh => h2 ((h.rrow_root_iff hw hn (h1 ▸ hr) (h1 ▸ hlast)).mpr hh)⟩
+    · rintro ⟨h1, h2⟩
+      exact ⟨h1, fun hh => h2 ((h.rrow_root_iff hw hn (h1 ▸ hr) (h1 ▸ hlast)).mp hh)⟩
+  omega
+
+end RPath
+
+/-- **The incremental relabel of `reroot` agrees with a fresh classification**: correct labels stay
+correct although only the old and the new root are relabelled. -/
+theorem labelsOKB_reroot {t : Table} (hw : WF t) (hl : labelsOKB t = true) (r : Int) :
+    labelsOKB (reroot t r) = true := by
+  rcases reroot_cases t r with h | ⟨nr, h1, hnrp, h3⟩
+  · rw [h]; exact hl
+  · have hr : r ∈ ids t := mem_ids.mpr ⟨nr, find?_some h1⟩
+    have hP := rootPath_RPath hw hr
+    obtain ⟨ro, nro, hlast, hfro, hrop⟩ := hP.last
+    have hnro := find?_some hfro
+    have hlinks : links (reroot t r) = links (rerootParents t r (rootPath t r)) := by
+      rw [h3, links_map_relabelRow]
+    have hror : ro ≠ r := by
+      intro he
+      rw [he, h1] at hfro
+      simp only [Option.some.injEq] at hfro
+      exact hnrp (hfro ▸ hrop)
+    have hroon : ro ∈ rootPath t r := List.mem_of_getLast? hlast
+    rw [labelsOKB_iff] at hl ⊢
+    intro m hm
+    rw [childCount_congr hlinks]
+    rw [h3, hlast] at hm
+    simp only [Option.getD_some] at hm
+    obtain ⟨m1, hm1, rfl⟩ := List.mem_map.mp hm
+    rw [rerootParents_eq_map] at hm1
+    obtain ⟨n, hn, rfl⟩ := List.mem_map.mp hm1
+    rw [relabelRow_id, relabelRow_parent, rrow_id]
+    by_cases hnr : n.id = r
+    · -- the new root
+      unfold relabelRow
+      rw [if_pos (by rw [rrow_id]; exact hnr), rrow_parent_self hnr]
+      rfl
+    · by_cases hno : n.id = ro
+      · -- the old root: relabelled from its new child count
+        unfold relabelRow
+        rw [if_neg (by rw [rrow_id]; exact hnr), if_pos (by rw [rrow_id]; exact hno), hno]
+        rcases hP.rrow_cases hw hn with ⟨h1, _⟩ | ⟨_, _, q, _, h1, _, _, h2⟩ | ⟨h1, _⟩
+        · exact absurd h1 hnr
+        · have : decide ((rrow r (rootPath t r) n).parent < 0) = false := by
+            rw [h1]; simp; omega
+          rw [this]
+        · exact absurd (hno ▸ hroon) h1
+      · -- everybody else keeps label, child count and root status
+        have hlast' : (rootPath t r).getLast? ≠ some n.id := by
+          rw [hlast]; intro he; simp only [Option.some.injEq] at he; exact hno he.symm
+        unfold relabelRow
+        rw [if_neg (by rw [rrow_id]; exact hnr), if_neg (by rw [rrow_id]; exact hno), rrow_label,
+          hP.childCount_rerootParents hw (mem_ids_of_mem hn) hnr hlast', hl n hn]
+        have := hP.rrow_root_iff hw hn hnr hlast'
+        congr 1
+        exact (decide_eq_decide.mpr this).symm
+
 end Navis.Forest
